@@ -55,7 +55,11 @@ ENTITIES = {
     "OPTS": ([], [("oe", COLOR, True, False), ("ob", BOOL, True, False), ("ol", LOGICAL, True, False),
                   ("orl", REAL, True, False), ("os", STR, True, False), ("obin", BIN, True, False),
                   ("onum", NUMBER, True, False), ("osel", NUM_OR_LABEL, True, False)]),
+    "CARRIER": ([], [("load", ref("POINT", "DPOINT"), False, False), ("note", STR, False, False)]),
+    "DCARRIER": (["CARRIER"], [("extra", INT, False, False)]),
 }
+# attributes redeclared in a subtype with a narrower type (not derived): (entity, attr) -> the type instances of that entity need
+REDECLARED_IN = {("DCARRIER", "load"): ref("DPOINT")}
 ABSTRACT = {"BASE"}
 # attributes redeclared as DERIVE in a subtype: (entity, supertype attr) -> written as '*'
 DERIVED_IN = {("DPOINT", "tag")}
@@ -102,7 +106,7 @@ def all_attrs(ent, entities=None):
             return
         seen.append(e)
         for (n, t, o, d) in own:
-            out.append((e, n, t, o, d))
+            out.append((e, n, REDECLARED_IN.get((ent, n), t) if e != ent else t, o, d))
     rec(ent)
     return out
 
@@ -334,8 +338,23 @@ class Gen:
         if x < 0.9:
             return r.choice(["\n", "\t", "  ", "\n  ", " \n"])
         if self.comments_ok and after in ("(", ",", "=", None) and before not in (",", ")", ";"):
-            return r.choice(["/* c */", "/**/", "/* ( */", "/* , */", "/** n **/", "/***/", "/* a * b */", "/* see #1 */", "/*#2*/"])
+            return r.choice(["/* c */", "/**/", "/* ( */", "/* , */", "/** n **/", "/***/", "/* a * b */", "/* see #1 */", "/*#2*/", "/* ' */", "/* ; */", "/*);*/"])
         return " "
+
+    def between(self, p=0.07):
+        """comments where a whole token separator stands outside a record: before an instance, between its name and '=',
+        between ')' and ';', before ENDSEC - one or several in a row, some with '* /', '/*' or '**' inside"""
+        r = self.r
+        if not self.fancy or r.random() >= p:
+            return ""
+        texts = ["/* c */", "/**/", "/* a * / b */", "/* open /* again */", "/***/", "/* ENDSEC; */", "/* two\nlines */", "/** x **/", "/* it's; */"]
+        return "".join(r.choice(texts) + r.choice(["", " ", "\n"]) for _ in range(r.choice((1, 1, 2, 3))))
+
+    def idtext(self, i):
+        """digits of an instance name: a decimal numeral, now and then written with leading zeros (#0010 is #10)"""
+        if self.fancy and self.r.random() < 0.06:
+            return "0" * self.r.choice((1, 1, 2, 3)) + str(i)
+        return str(i)
 
     def render(self, insts, schema=None, shuffle=True, header=None, comments_in_records=True):
         schema = schema or self.S.name
@@ -349,11 +368,12 @@ class Gen:
             r.shuffle(order)
         for inst in order:
             self.comments_ok = not inst["complex"]
-            line = "#%d%s=%s" % (inst["id"], self.sep("#", "=") if self.fancy else "", self.sep("=", None) if self.fancy else "")
+            line = "%s#%s%s%s=%s" % (self.between(), self.idtext(inst["id"]), self.sep("#", "=") if self.fancy else "", self.between(0.03),
+                                     self.sep("=", None) if self.fancy else "")
             toks = inst["toks"]
             depth = 0
             for k, tk in enumerate(toks):
-                line += tk
+                line += ("#" + self.idtext(int(tk[1:]))) if (tk[:1] == "#" and tk[1:].isdigit()) else tk
                 if tk == "(":
                     depth += 1
                 elif tk == ")":
@@ -361,9 +381,9 @@ class Gen:
                 nxt = toks[k + 1] if k + 1 < len(toks) else ";"
                 self.comments_ok = (not inst["complex"]) and depth <= 1 and nxt != "("
                 line += self.sep(tk if tk in ("(", ",") else "v", nxt)
-            line += ";" + ("\n" if r.random() < 0.9 or not self.fancy else " ")
+            line += self.between(0.03) + ";" + ("\n" if r.random() < 0.9 or not self.fancy else " ")
             out.append(line)
-        out.append("ENDSEC;\nEND-ISO-10303-21;\n")
+        out.append(self.between(0.15) + "ENDSEC;\nEND-ISO-10303-21;\n")
         return "".join(out).encode("latin-1"), order
 
 
